@@ -52,13 +52,16 @@ structure Quirks where
   canonStr : Bool := false
   /-- F354: `deref()` of a leafref without target instance is an error instead of the empty node-set -/
   derefErr : Bool := false
+  /-- F353: an unprefixed identity name for which no module can be found (root context, or the name `*`) dereferences a NULL
+      module in `xpath_derived_` (the driver prints `NullMod`, the implementation crashes); off = the repaired code: LY_EVALID -/
+  nullModCrash : Bool := false
 deriving Inhabited, Repr
 
 def Quirks.ofMask (m : Nat) : Quirks :=
   { numFmt := m.testBit 0, strtold := m.testBit 1, truncFloor := m.testBit 2, bytes := m.testBit 3,
     predMerged := m.testBit 4, follPrec := m.testBit 5, nodeTests := m.testBit 6, predTrunc := m.testBit 7,
     textQuirk := m.testBit 8, strContainer := m.testBit 9, nsBool := m.testBit 10, floorNonFinite := m.testBit 11, substrNegInf := m.testBit 12,
-    canonStr := m.testBit 13, derefErr := m.testBit 14 }
+    canonStr := m.testBit 13, derefErr := m.testBit 14, nullModCrash := m.testBit 15 }
 
 inductive Value (N : Type)
   | ns (l : List Ref)
@@ -364,7 +367,7 @@ def derivedFn (env : Env) (self : Bool) (l : List Ref) (name : Bytes) : Except E
   | .ok id => pure (.bool (Yang.derivedAny env.facts env.doc self id l))
   | .noModule => throw .noModule
   | .notFound => throw .valid
-  | .nullMod => throw .nullMod
+  | .nullMod => if env.q.nullModCrash then throw .nullMod else throw .valid
 
 /-- `deref(ns)` (RFC 7950 §10.3.1) on a leafref: `xpath_deref` + `lyplg_type_resolve_leafref`.  instance-identifier values are not
 modelled (the first node then yields the empty set here). -/
